@@ -38,6 +38,10 @@ async def main():
     print("F2 { dog { ... on Cat { meow } } } validation errors:", d.validators.errors)
     d = document_from_ast_json(doc([op([field("e", sels=[inline("Empty", [field("x")])])])]), "q1b", schema)
     print("F2b { e { ... on Empty { x } } } validation errors:", d.validators.errors)
+    for q in ([field("dog", sels=[inline("Dog", [field("bark")])])], [field("dog", sels=[inline(None, [field("bark")])])],
+              [field("dog", sels=[field("name"), inline("Dog", [inline("Dog", [field("bark")])])])], [inline("Query", [field("cat", sels=[field("meow")])])]):
+        d = document_from_ast_json(doc([op(q)]), "ok", schema)
+        print("   control (valid inline spreads) validation errors:", d.validators.errors)
     d = document_from_ast_json(doc([op([field("ints", args=[arg("xs", lst([var("v")])), arg("o", obj({"a": var("v")}))])], vardefs=[vardef("v","String")], opname="Q")]), "q2", schema)
     print("F6 query Q($v: String) { ints(xs: [$v], o: {a: $v}) } validation errors:", d.validators.errors)
     d2 = document_from_ast_json(doc([op([field("ints", args=[arg("xs", var("v"))])], vardefs=[vardef("v","String")], opname="Q")]), "q3", schema)
